@@ -1240,9 +1240,11 @@ let rec run toks =
     let f = get_forest fn in
     let m = if mask = [] then [] else fst (parse_positions f mask) in
     let l = nat_of_int (nlev f) in
-    let asgs = all_asg (szf f) l in
-    let parts = List.concat (List.map2 (fun x v ->
-        if v < inf && matches l m x then [asg_str f x ^ "=" ^ string_of_int v] else []) asgs tb) in
+    let arr = Array.of_list tb in
+    (* EnumOpt.enum_opt on the function of the edge (EnumOptP: sound, complete, increasing) *)
+    let g x = let v = arr.(tab_index f x) in if v >= inf then None else Some (z_of_int v) in
+    let parts = List.map (fun (x, v) -> asg_str f x ^ "=" ^ string_of_int (int_of_z v))
+        (enum_opt (szf f) g l m) in
     emit (Stdlib.String.concat " " ("iter" :: parts))
   | "iter" :: a :: mask ->
     let (fn, t) = get_edge a in
